@@ -1326,8 +1326,6 @@ class Interp:
                 if cl.startswith("forget:"):
                     self.forget_facts([x.strip() for x in cl[7:].split(",")], env)
                     continue
-                self.path.prove(self.eval_spec(cl, env), "%s/assert-after:%s#%d" % (c.short, nm, i), "assert", where=cl,
-                                assume_form=self.eval_spec(cl, env, assume=True))
                 if cl.startswith("define:"):
                     self.define_abbrev(cl[7:], nm, env, "%s/assert-after:%s#%d" % (c.short, nm, i))
                     continue
